@@ -189,3 +189,57 @@ def _kill_stray_cbmc(root):
                 os.kill(int(parts[0]), 9)
             except Exception:
                 pass
+
+
+# ---------------------------------------------------------------------------------------------
+# Replay: Kani concrete playback of a failing harness, executed natively (DESIGN 1.4)
+# ---------------------------------------------------------------------------------------------
+def replay_failing(prop_id, target, build_overlay, full_name, short_name, replay_dir, timeout=900):
+    """build_overlay(o, copy_harness=True) must prepare an overlay whose harness modules are
+    *copies inside the overlay* (so the generated #[test] can be appended).  Returns
+    dict(reproduced=True|False|None, path=..., how=..., output=...)."""
+    os.makedirs(replay_dir, exist_ok=True)
+    out_path = os.path.join(replay_dir, short_name + ".playback.rs")
+    env = dict(os.environ)
+    env["CARGO_NET_OFFLINE"] = "true"
+    env["VERIF_HARNESS_DIR"] = ov.HARNESS_DIR
+    env.pop("RUSTUP_TOOLCHAIN", None)
+    with ov.Overlay("%s-replay" % prop_id, "kani") as o:
+        harness_copy = build_overlay(o)
+        cmd = ["cargo", "kani"] + (["--lib"] if target == "lib" else ["--bin", target]) + [
+            "-Z", "stubbing", "-Z", "unstable-options", "-Z", "concrete-playback", "--concrete-playback=print",
+            "--harness-timeout", "%ds" % timeout, "--target-dir", KANI_TARGET, "--output-format", "terse", "--exact", "--harness", full_name]
+        try:
+            p = subprocess.run(cmd, cwd=o.root, env=env, stdout=subprocess.PIPE, stderr=subprocess.STDOUT, text=True, timeout=timeout + 300, errors="replace")
+        except subprocess.TimeoutExpired:
+            return {"reproduced": None, "path": None, "how": "kani concrete playback", "output": "timed out generating the playback test"}
+        tests = re.findall(r"```\n(.*?)```", p.stdout, re.S)
+        tests = [t for t in tests if "#[test]" in t]
+        if not tests:
+            return {"reproduced": None, "path": None, "how": "kani concrete playback", "output": "no playback test generated"}
+        code = "\n".join(tests)
+        with open(out_path, "w") as fh:
+            fh.write("// Kani concrete playback test(s) for %s (generated from the solver's counterexample)\n" % full_name + code)
+        names = re.findall(r"fn (kani_concrete_playback_\w+)\(", code)
+        # append the tests to the harness copy that owns the harness and run them natively
+        owner = harness_copy.get(short_name)
+        if not owner:
+            return {"reproduced": None, "path": out_path, "how": "kani concrete playback", "output": "harness source not found in overlay"}
+        with open(owner, "a") as fh:
+            fh.write("\n" + code + "\n")
+        cmd2 = ["cargo", "kani", "playback", "-Z", "concrete-playback"] + (["--lib"] if target == "lib" else ["--bin", target]) + ["--", names[0]]
+        env2 = dict(env)
+        env2["CARGO_TARGET_DIR"] = os.path.join(ov.BUILD_DIR, "playback-target")
+        try:
+            p2 = subprocess.run(cmd2, cwd=os.path.join(o.root, "engine"), env=env2, stdout=subprocess.PIPE, stderr=subprocess.STDOUT, text=True, timeout=2400, errors="replace")
+        except subprocess.TimeoutExpired:
+            return {"reproduced": None, "path": out_path, "how": "cargo kani playback", "output": "native playback timed out"}
+        txt = p2.stdout
+        m = re.search(r"test result: (\w+)\. (\d+) passed; (\d+) failed", txt)
+        if not m:
+            errs = [l for l in txt.splitlines() if l.startswith("error")]
+            return {"reproduced": None, "path": out_path, "how": "cargo kani playback", "output": "playback did not run: " + (errs[0] if errs else txt[-300:])}
+        failed = int(m.group(3))
+        panic = re.search(r"panicked at [^\n]*\n([^\n]*)", txt)
+        return {"reproduced": failed > 0, "path": out_path, "how": "cargo kani playback (native dev build) of the solver's assignment",
+                "output": (panic.group(0)[:300] if panic else "test passed natively: the counterexample does not reproduce")}
